@@ -71,6 +71,7 @@ func (s *Scheduler) Schedule(g *ExecutionGraph) error {
 			wg.Add(1)
 			stage.UpdateStatus(StatusRunning)
 			go func(stage *Stage) {
+				verifYield("stage-start", stage)
 				defer func() {
 					stage.End = time.Now()
 					wg.Done()
